@@ -40,7 +40,6 @@ def run(ctx):
         tl, summ = vectors(ctx)
     ctx.log("Complete(): %d vectors replayed through the real session, %d mismatches" % (summ["evaluations"], len(summ["mismatches"])))
     fresh = []
-    fresh = []
     for m in summ["mismatches"]:
         kf = ctx.match_finding("transmit-vector", m["vector"]["in"], m["what"])
         if kf:
@@ -71,7 +70,8 @@ def run(ctx):
         "vector_states": tl.distinct, "vectors_replayed": summ["evaluations"], "vector_mismatches": len(summ["mismatches"]),
         "vector_mismatches_known_findings": len(summ["mismatches"]) - len(fresh),
         "vector_classes": summ["distinct"], "vector_samples": summ["samples"][:1],
-        "rule": cov.get("rule", "") + "; vectors = every element shape (name x namespace x id x from x nested stanza-named child x c2s/s2s) x every argument form (token reader, +start element, xml.Marshaler, xmlstream.Marshaler, xmlstream.WriterTo, each also with a start element, token writer), expectation computed by TLC from Transmit.tla!Complete",
+        "rule": cov.get("rule", "") + "; vectors = every element shape (name x namespace x id x from x nested stanza-named child) x every argument form (token reader, +start element, xml.Marshaler, xmlstream.Marshaler, xmlstream.WriterTo, each also with a start element, token writer, token writer flushing inside the element) x every session the call can be made on: kind (c2s, s2s, WebSocket, component) x role (initiated, received) x construction (the kind's own constructor, xmpp.NewSession / ReceiveSession + the kind's library Negotiator, a Negotiator of the application) - 19 real session constructions; the stream's content namespace is computed by the specification from the kind alone (Transmit.tla!ContentNS: jabber:client for c2s and WebSocket - RFC 7395: the framing namespace of <open/> is no content namespace and every frame is a document of its own, so the stanza names jabber:client itself -, jabber:server for s2s, jabber:component:accept for components), expectation computed by TLC from Transmit.tla!Complete",
+        "vector_sessions": summ.get("extra", {}).get("sessions", {}),
         "exhaustive": True,
     })
     cov["traces_validated_against_impl"] = cov.get("traces_validated_against_impl", 0) + summ["evaluations"]
